@@ -75,7 +75,7 @@ func vfUndefinedEncap() enums.OpenconfigAftTypesEncapsulationHeaderType {
 // (shape chosen symbolically), and whether it is also invalid for DELETE.
 func vfMalformedOp(op *spb.AFTOperation) (badForDelete bool) {
 	u := func(v uint64) *wpb.UintValue { return &wpb.UintValue{Value: v} }
-	switch vfInt("shape", 0, 28) {
+	switch vfInt("shape", 0, 29) {
 	case 0: // no entry at all
 		return true
 	case 1:
@@ -151,6 +151,12 @@ func vfMalformedOp(op *spb.AFTOperation) (badForDelete bool) {
 		op.Entry = &spb.AFTOperation_NextHop{NextHop: &aftpb.Afts_NextHopKey{Index: 77, NextHop: &aftpb.Afts_NextHop{DecapsulateHeader: vfUndefinedEncap()}}}
 	case 27:
 		op.Entry = &spb.AFTOperation_Ipv4{Ipv4: &aftpb.Afts_Ipv4EntryKey{Prefix: "9.9.9.9/32", Ipv4Entry: &aftpb.Afts_Ipv4Entry{NextHopGroup: u(1), DecapsulateHeader: vfUndefinedEncap()}}}
+	case 29: // enumerated label with a number the enum does not define (defined: 0-4, 8, 9)
+		v := vfI32("label-enum")
+		vfAssume(vfOr(vfOr(v < 0, v > 9), vfAnd(v >= 5, v <= 7)))
+		op.Entry = &spb.AFTOperation_Mpls{Mpls: &aftpb.Afts_LabelEntryKey{Label: &aftpb.Afts_LabelEntryKey_LabelOpenconfigmplstypesmplslabelenum{
+			LabelOpenconfigmplstypesmplslabelenum: enums.OpenconfigMplsTypesMplsLabelEnum(v)}, LabelEntry: &aftpb.Afts_LabelEntry{NextHopGroup: u(1)}}}
+		return true
 	case 28:
 		op.Entry = &spb.AFTOperation_Ipv6{Ipv6: &aftpb.Afts_Ipv6EntryKey{Prefix: "2001:db8:9::/64", Ipv6Entry: &aftpb.Afts_Ipv6Entry{NextHopGroup: u(1), DecapsulateHeader: vfUndefinedEncap()}}}
 	}
